@@ -295,7 +295,14 @@ fn c07_errors(rep: &mut Report, r: &mut Rng, shard: u64, nshards: u64) {
                         }
                     }
                     // ... or re-targeted it (separate response: own type and message id), or touched other parts
-                    let premut = r.below(7);
+                    let premut = r.below(8);
+                    if premut == 7 {
+                        // the application had accepted an observation before a later step failed
+                        if let Some(resp) = rq.response.as_mut() {
+                            resp.message.set_observe_value(r.next_u64() as u32 & 0xff_ffff);
+                            resp.message.add_option(CoapOption::MaxAge, vec![30]);
+                        }
+                    }
                     if premut == 6 {
                         // the reply was already taken out and sent: nothing is left to apply an error to
                         rq.response = None;
